@@ -3,6 +3,25 @@ property predicate of a spectral decomposition, written independently of the cod
 import math
 
 SQ2 = math.sqrt(2.0)
+ITERATIVE = {"FSESJACOBI", "FSESQL", "FSESCUPPEN", "GTE"}
+ILL = {"repeated", "near", "spread"}   # classes where analytical solvers are documented/expected to lose accuracy
+
+
+def tolerance(solver, n, cat, metric):
+    """alarm thresholds, relative to the norm of the tensor.  Documented accuracies (docs/web/release-notes-3.1.md and
+    release-notes-5.0.md, max residual on 1e6 random tensors in [-1,1], double): Jacobi 1e-15, GTE 2e-15, QL 3e-15,
+    Cuppen 6e-15, TFEL 8e-14, Harari 2e-14, hybrid 3.5e-10, analytical 1.1e-9; the analytical families lose about half
+    of the digits on (nearly) repeated eigenvalues (1e-8 on the values is normal).  Thresholds are far above those."""
+    if n == 2:
+        return 1e-10          # closed forms
+    if solver in ITERATIVE:
+        return 1e-8 if cat in ILL else 1e-10
+    if cat in ILL:
+        return 1e-6 if metric in ("values", "vpvalues") else 1e-3
+    return 1e-6
+
+
+
 
 
 def rot_from_quat(rng):
@@ -65,7 +84,8 @@ def from_mandel(s):
 
 def cases(rng, n_random, dims=(2, 3)):
     """list of (id, category, N, mandel vector).  Every category of the property's quantifier is present:
-    diagonal, repeated, nearly repeated (gaps 1e-1..1e-15), badly scaled, random rotations."""
+    diagonal, repeated, nearly repeated (gaps 1e-1..1e-15), badly scaled (`scaled` 1e+-8, 1e+-30; `extreme` 1e+-100, 1e+-150;
+    `spread` = eigenvalues of very different magnitude), nearly diagonal, random rotations."""
     out = []
 
     def add(cat, n, lmb, q):
@@ -104,7 +124,7 @@ def cases(rng, n_random, dims=(2, 3)):
         for k in (-150, -100, -30, -8, 8, 30, 100, 150):
             for _ in range(max(1, n_random // 80)):
                 sc = 10.0 ** k
-                add("scaled", n, [sc * rng.uniform(-2, 2) for _ in range(3)], rq())
+                add("scaled" if abs(k) <= 30 else "extreme", n, [sc * rng.uniform(-2, 2) for _ in range(3)], rq())
         for k in (3, 6, 9, 12):
             for _ in range(max(1, n_random // 60)):
                 l = [rng.uniform(0.5, 2), rng.uniform(0.5, 2) * 10.0 ** k, rng.uniform(0.5, 2) * 10.0 ** (-k)]
